@@ -9,7 +9,9 @@ From Moq Require Import Strs GoTypes TypeString VarName Registry Scope.
 Record tparam := mkTparam {
   tp_name : string;
   tp_constraint : ty;               (* tp.Constraint() *)
-  tp_under_embeds : list ty }.      (* embedded types of the constraint's underlying interface *)
+  tp_under_embeds : list ty;        (* embedded types of the constraint's underlying interface *)
+  tp_plain_comparable : bool }.     (* its type set is comparable and it has no methods
+                                       (types.Interface.IsComparable, NumMethods) *)
 
 Record method := mkMethod { m_name : string; m_sig : sig }.
 
@@ -108,6 +110,13 @@ Fixpoint explicit_constraint (embeds : list ty) : option ty :=
   | _ :: r => explicit_constraint r
   end.
 
+(* ... and, since the repair of D9a, int when the constraint is comparable without methods *)
+Definition explicit_constraint_tp (tp : tparam) : option ty :=
+  match explicit_constraint (tp_under_embeds tp) with
+  | Some t => Some t
+  | None => if tp_plain_comparable tp then Some (TBasic "int" KInt false) else None
+  end.
+
 (* types.Type.String(): no qualifier function, i.e. full package paths *)
 Definition type_string_full (t : ty) : string := type_string (fun p => p_path p) t.
 
@@ -186,7 +195,7 @@ Definition finish_method (cfg : rcfg) (rf : registry) (m : raw_method) : method_
 Definition finish_tparams (cfg : rcfg) (rf : registry) (k : raw_mock) : list tparam_d :=
   map (fun '(v, tp) =>
          mkTparamD (v_name v) (var_type_string cfg rf v)
-                   (option_map type_string_full (explicit_constraint (tp_under_embeds tp))))
+                   (option_map type_string_full (explicit_constraint_tp tp)))
       (combine (sc_vars (rk_tscope k)) (rk_tparams k)).
 
 Definition finish_mock (cfg : rcfg) (rf : registry) (k : raw_mock) : mock_d :=
